@@ -41,3 +41,10 @@ impl<T> VxExpect<T> for Option<T> {
     #[verifier::external_body]
     fn vx_expect(self, msg: &str) -> (r: T) ensures self is Some, r == self->Some_0 { self.expect(msg) }
 }
+
+// Option::unwrap() where a panic is a permitted outcome (C17: "an error or a Rust panic carrying a message"): if the call returns, the option was Some
+pub trait VxUnwrap<T> { fn vx_unwrap(self) -> T; }
+impl<T> VxUnwrap<T> for Option<T> {
+    #[verifier::external_body]
+    fn vx_unwrap(self) -> (r: T) ensures self is Some, r == self->Some_0 { self.unwrap() }
+}
